@@ -597,7 +597,7 @@ func cmdCheck(args []string) {
 			"B1: `concurrent` closures (the per-job worker closures) must not store to captured variables; reads of captured variables and stores by non-concurrent closures are not checked")
 	}
 	if seenMode["B2"] {
-		assumptions = append(assumptions, "B2-lite: only worker.status is treated as changed by other goroutines, and only across the blocking waits (WaitUntilFinished, PauseAndWait); obligations labelled b2-* are proved under that havoc; no other interference is modelled")
+		assumptions = append(assumptions, "B2-lite: obligations labelled b2-* are proved under a stated, narrow interference model and nothing else is modelled: (i) worker.status is arbitrary after the blocking waits (WaitUntilFinished, PauseAndWait); (ii) a compare-and-swap, and an atomic Add after an earlier Load of the same location, meet the known value or an arbitrary other one; (iii) an atomic Load after this path's own Add of the same location, and WgCounter.Count(), return the known value or another one (for Count: at most the known one); (iv) List.Remove's result and the length of a NodeSlice snapshot are not determined by what the caller knew")
 	}
 	// requires clauses of entry points are assumptions about callers
 	for _, fr := range results {
